@@ -116,6 +116,25 @@ def api_statements(rep):
     add(f"auto q = percent({v(50)}); out(as_raw_number(q));")
     add(f"constexpr auto q = meters({v(5)}) + meters({v(1)}); static_assert(q.in(meters) == {v(6)}, \"vf\"); out(q.in(meters));")
     add(f"using Q = Quantity<Meters, {R}>; out((double)sizeof(Q)); out((int)std::is_trivially_copyable<Q>::value); out((int)(std::is_same<std::common_type_t<Q, Quantity<Feet, {R}>>::Rep, {R}>::value));")
+    # operands of different reps (same unit and different units), for quantities and points: overload resolution between the
+    # same-type friends, the mixed templates and (C++20) rewritten <=> candidates must not change the answer
+    others = [("double", "1.5"), ("int", "300"), ("unsigned", "5u"), ("signed char", "(signed char)100"), ("float", "0.25f"), ("long long", "-1LL")]
+    for orep, oval in others:
+        if orep == rep:
+            continue
+        add(f"auto a = meters({v(1)}); auto b = meters({oval}); out((int)(a < b)); out((int)(a <= b)); out((int)(a > b)); out((int)(a >= b)); out((int)(a == b)); out((int)(a != b)); out((int)(b < a)); out((int)(b >= a));")
+        add(f"auto a = meters_pt({v(1)}); auto b = meters_pt({oval}); out((int)(a < b)); out((int)(a <= b)); out((int)(a > b)); out((int)(a >= b)); out((int)(a == b)); out((int)(a != b)); out((int)(b < a)); out((int)(b >= a));")
+        add(f"auto a = meters({v(3)}); auto b = centi(meters)({oval}); out((int)(a < b)); out((int)(a >= b)); out((int)(b == a)); auto s = a + b; out(s.in(decltype(s)::unit)); auto d = b - a; out(d.in(decltype(d)::unit));")
+        add(f"auto a = meters_pt({v(3)}); auto b = centi(meters_pt)({oval}); out((int)(a < b)); out((int)(a >= b)); out((int)(b == a)); auto d = b - a; out(d.in(decltype(d)::unit)); auto m = min(a, b); out(m.in(decltype(m)::unit));")
+    add(f"auto a = meters({v(-1)}); auto b = meters(5u); out((int)(a < b)); out((int)(b > a)); auto p = meters_pt({v(-1)}); auto q = meters_pt(5u); out((int)(p < q)); out((int)(q > p));")
+    # conversion factors that are roots and irrational (evaluated by the library's own compile-time arithmetic: must not depend on
+    # what a particular compiler is willing to constant-fold)
+    if not integral:
+        add(f"auto q = sqrt(kilo(meters))({v(3)}); out(q.in(sqrt(meters))); out(q.in(sqrt(milli(meters))));")
+        add(f"auto q = (meters * sqrt(seconds))({v(2)}); out(q.in(meters * sqrt(milli(seconds)))); auto r = cbrt(kilo(meters))({v(2)}); out(r.in(cbrt(meters)));")
+        add(f"auto q = root<4>(kilo(meters))({v(2)}); out(q.in(root<4>(meters))); auto r = (meters / sqrt(hertz))({v(5)}); out(r.in(centi(meters) / sqrt(kilo(hertz))));")
+        add(f"auto q = degrees({v(90)}); out(q.in(radians)); out(sqrt(squared(degrees)({v(4)})).in(radians)); auto r = (meters * mag<2>() / Magnitude<Pi>{{}})({v(1)}); out(r.in(meters));")
+        add(f"out(get_value<{R}>(root<2>(mag<2>()))); out(get_value<{R}>(root<3>(mag<10>()) * Magnitude<Pi>{{}})); out(get_value<{R}>(pow<-3>(root<2>(mag<7>()))));")
     # odr-uses of the public static members and of every kind of compile-time label: in C++14 these need namespace-scope
     # definitions to link (C++17 made them implicitly inline), so a missing definition is accepted by one standard and rejected by another
     add(f"odr(decltype(meters({v(5)}))::unit); odr(decltype(meters_pt({v(5)}))::unit); odr(decltype(meters)::unit); odr(decltype(meters_pt)::unit);")
@@ -143,6 +162,7 @@ API_PRE = r'''
 #include "au/units/celsius.hh"
 #include "au/units/kelvins.hh"
 #include "au/units/fahrenheit.hh"
+#include "au/units/radians.hh"
 #include "au/constants/speed_of_light.hh"
 #include <chrono>
 #include <cstdint>
